@@ -17,13 +17,15 @@
 (* within Eps + 1 of the rank (the premise of the search contract, C08).   *)
 (***************************************************************************)
 EXTENDS Naturals, Integers, Sequences, FiniteSets, TLC
-CONSTANTS Eps, MaxSegs, MaxRank, Slack      \* Slack: how far a raw intercept may be from its rank
+CONSTANTS Eps, MaxSegs, MaxRank, Slack,     \* Slack: how far a raw intercept may be from its rank
+          MinGap                            \* least distance between the first ranks of consecutive segments: 2 Eps + 1 for the
+                                            \* maximal segments of one sequential segmentation (C04), 1 at the seam of a chunked one
 VARIABLES r, raw, P, extra
 vars == <<r, raw, P, extra>>
 Clamp(v, lo, hi) == IF v < lo THEN lo ELSE IF hi < v THEN hi ELSE v
 Init == /\ r = <<0>> /\ raw \in {<<x>> : x \in 0..Slack} /\ P = 0 /\ extra = FALSE
 AddSeg == /\ P = 0 /\ Len(r) < MaxSegs
-          /\ \E nr \in (r[Len(r)] + 2 * Eps + 1)..MaxRank :
+          /\ \E nr \in (r[Len(r)] + MinGap)..MaxRank :
              \E nraw \in (nr - Slack)..(nr + Slack) :
                 /\ nraw >= 0 /\ r' = Append(r, nr) /\ raw' = Append(raw, nraw)
           /\ UNCHANGED <<P, extra>>
@@ -47,6 +49,11 @@ BuilderOK == P > 0 => /\ \A i \in 1..(Len(AllPos) - 1) : AllPos[i] < AllPos[i + 
                       /\ \A i \in 1..Len(AllPos) : AllPos[i] >= 0 /\ AllPos[i] < MaxI
 \* std::clamp requires lo <= hi
 ClampOK == P > 0 => \A i \in 2..m : raw[i - 1] + 1 <= P - 1
+\* The lower clamp never binds: a stored intercept is never ABOVE the raw one.  Moving an intercept up moves the whole segment up,
+\* and a point that sat Eps above its line is then predicted Eps + 1 too high (below the range search() returns).  This is what
+\* MinGap = 2 Eps + 1 buys; with MinGap = 1 (the short segment that ends a chunk of make_segmentation_par, then the first segment
+\* of the next chunk) TLC finds the shift: the defect F16 of CompressedPGMIndex, repaired by building its first level sequentially.
+NoUpwardShift == P > 0 => \A i \in 2..m : raw[i] >= raw[i - 1] + 1
 \* the decoded intercept is still a usable prediction of the segment's first rank
 DecodedOK == P > 0 => \A i \in 1..m : LET d == Offset + Pos(i) IN d - r[i] <= Slack /\ r[i] - d <= Slack
 =============================================================================
